@@ -47,7 +47,7 @@ TRUSTED = [
     "GNU objdump, llvm-mc (encoding guard only)",
     "vf/isagen.py, vf/gencc.py, vf/genir.py (generators)",
 ]
-REGISTER = False
+REGISTER = True
 TECHNIQUE = "single-stepping of harvested and re-instantiated instructions (x86-64 natively, RISC-V in a validated emulator) on random register files; write-set and read-set (perturb one register) oracles against ppci's annotations"
 LEVEL_TEXT = (
     "Exploration: every instruction class and operand shape the x86-64 and RISC-V code generators emitted for the corpora is "
@@ -836,48 +836,78 @@ def _fmt_decl(regs):
     return "{" + ", ".join(sorted({"%s" % r.name + ("s" if type(r).__name__ == "XmmRegisterSingle" else "") for r in regs})) + "}"
 
 
-def _prepare(inst, seed, nstates):
-    """(plan, records, states) for one instance: per state the base run and one run per register
-    whose undeclared bits are perturbed.  x86: packed stepper records; RISC-V: (code, state, seed)."""
-    if inst.unsupported_mem:
-        raise Discard("memory operand %s is not placed in the arena" % inst.unsupported_mem)
-    rng = x86step.Rng(seed)
-    code = inst.code
-    plan = []  # (state index, None | (file, idx, value))
-    recs = []
-    states = []
-    for s in range(nstates):
+class _Job:
+    """Execution plan of one instance: per state the base run and ONE group run in which the
+    undeclared bits of every register are perturbed at once; only when the group run disagrees
+    with the base run (or faults) are the registers perturbed one at a time, with the same values,
+    to name the register the output depends on."""
+
+    def __init__(self, inst, seed, nstates):
+        if inst.unsupported_mem:
+            raise Discard("memory operand %s is not placed in the arena" % inst.unsupported_mem)
+        self.inst = inst
+        self.seed = seed
+        self.nstates = nstates
+        rng = x86step.Rng(seed)
+        self.states = []
+        self.aseeds = []
+        self.perts = []
+        for s in range(nstates):
+            if inst.rv:
+                st = _rv_state(rng)
+                _shape_state_rv(inst, st, rng)
+                aseed = rng.next()
+                perts = _perturbations_rv(inst, st, rng, s)
+            else:
+                st = x86step.random_state(rng)
+                _shape_state(inst, st, rng)
+                aseed = rng.next()
+                perts = _perturbations(inst, st, rng, s)
+            self.states.append(st)
+            self.aseeds.append(aseed)
+            self.perts.append(perts)
+        self._base = {}
+
+    def _apply(self, s, perts):
+        """The engine's input for state s with the given perturbations applied."""
+        inst, st = self.inst, self.states[s]
         if inst.rv:
-            st = _rv_state(rng)
-            _shape_state_rv(inst, st, rng)
-            aseed = rng.next()
-            states.append(st)
-            plan.append((s, None))
-            recs.append((code, st, aseed))
-            for f, i, nv in _perturbations_rv(inst, st, rng, s):
-                g = list(st["g"])
+            g = list(st["g"])
+            for _, i, nv in perts:
                 g[i] = nv
-                plan.append((s, (f, i, nv)))
-                recs.append((code, {"g": g}, aseed))
-            continue
-        st = x86step.random_state(rng)
-        _shape_state(inst, st, rng)
-        aseed = rng.next()
-        states.append(st)
-        base = bytearray(x86step.pack_record(code, aseed, st))
-        plan.append((s, None))
-        recs.append(bytes(base))
-        for f, i, nv in _perturbations(inst, st, rng, s):
-            rec = bytearray(base)
+            return (inst.code, {"g": g}, self.aseeds[s])
+        if s not in self._base:
+            self._base[s] = x86step.pack_record(inst.code, self.aseeds[s], st)
+        if not perts:
+            return self._base[s]
+        rec = bytearray(self._base[s])
+        for f, i, nv in perts:
             if f == "g":
                 off = x86step.GPR_OFF + 8 * i
                 rec[off : off + 8] = nv.to_bytes(8, "little")
             else:
                 off = x86step.XMM_OFF + 16 * i
                 rec[off : off + 16] = nv.to_bytes(16, "little")
-            plan.append((s, (f, i, nv)))
-            recs.append(bytes(rec))
-    return plan, recs, states
+        return bytes(rec)
+
+    def round1(self):
+        """[(state, None | perturbation list)], records"""
+        plan, recs = [], []
+        for s in range(self.nstates):
+            plan.append((s, None))
+            recs.append(self._apply(s, ()))
+            if self.perts[s]:
+                plan.append((s, self.perts[s]))
+                recs.append(self._apply(s, self.perts[s]))
+        return plan, recs
+
+    def round2(self, flagged):
+        plan, recs = [], []
+        for s in flagged:
+            for p in self.perts[s]:
+                plan.append((s, [p]))
+                recs.append(self._apply(s, [p]))
+        return plan, recs
 
 
 def evaluate(inst, seed, nstates, counters=None):
@@ -889,127 +919,176 @@ def evaluate(inst, seed, nstates, counters=None):
     return r
 
 
-def evaluate_many(jobs, counters=None):
-    """jobs: [(instance, seed, nstates)] -> [[Failure] | Discard] (same order); all x86 jobs share
-    one request to the stepper, the RISC-V jobs run in the in-process emulator."""
-    prepared = []
-    x86recs = []
-    rvrecs = []
-    for inst, seed, nstates in jobs:
-        try:
-            plan, recs, states = _prepare(inst, seed, nstates)
-        except Discard as d:
-            prepared.append(d)
-            continue
-        pool = rvrecs if inst.rv else x86recs
-        prepared.append((plan, len(pool), len(recs), states))
+def _run_engines(batches):
+    """batches: [(is_rv, records)] -> [results]; all x86 records share one stepper request."""
+    x86recs, rvrecs, where = [], [], []
+    for rv, recs in batches:
+        pool = rvrecs if rv else x86recs
+        where.append((rv, len(pool), len(recs)))
         pool.extend(recs)
     xres = x86step.run_packed(x86recs) if x86recs else []
     rres = rvstep.run_batch(rvrecs) if rvrecs else []
-    out = []
-    for (inst, seed, nstates), p in zip(jobs, prepared):
-        if isinstance(p, Discard):
-            out.append(p)
-            continue
-        plan, a, n, states = p
-        res = (rres if inst.rv else xres)[a : a + n]
-        out.append(_judge(inst, seed, nstates, plan, res, states, counters if counters is not None else {}))
-    return out
+    return [(rres if rv else xres)[a : a + n] for rv, a, n in where]
 
 
-def _judge(inst, seed, nstates, plan, results, states, counters):
-    recs = results
-    # bits of the adjacent defs that this instruction is seen to write (union over the base runs)
-    outmask = dict(inst.outmask)
-    if inst.adjmask:
-        written = {}
-        for (s, pert), res in zip(plan, results):
-            if pert is None and res.status == 0:
-                for (f, i) in inst.adjmask:
-                    written[(f, i)] = written.get((f, i), 0) | (states[s][f][i] ^ res.reg(f, i))
-        for k, m in inst.adjmask.items():
-            if m & written.get(k, 0):
-                outmask[k] = outmask.get(k, 0) | (m & written[k])
-    outs = list(outmask.items())
-    failures = {}
-    byfull = regs_by_full(inst.target)
-    suspect = inst.suspect_mask()
-    tgt = inst.target
-    nbits = 32
-    base_res = {}
-    base_out = {}
-    nok = 0
-    for (s, pert), res in zip(plan, results):
-        st = states[s]
-        if pert is None:
-            base_res[s] = res
-            if res.status != 0:
-                sn = res.status if isinstance(res.status, str) else x86step.status_name(res.status)
-                counters["untestable:" + sn] = counters.get("untestable:" + sn, 0) + 1
+def evaluate_many(jobs, counters=None):
+    """jobs: [(instance, seed, nstates)] -> [[Failure] | Discard] (same order)."""
+    counters = counters if counters is not None else {}
+    prepared = []
+    for inst, seed, nstates in jobs:
+        try:
+            prepared.append(_Job(inst, seed, nstates))
+        except Discard as d:
+            prepared.append(d)
+    live = [j for j in prepared if not isinstance(j, Discard)]
+    plans = [j.round1() for j in live]
+    results = _run_engines([(j.inst.rv, recs) for j, (_, recs) in zip(live, plans)])
+    judges = []
+    second = []
+    for j, (plan, _), res in zip(live, plans, results):
+        jd = _Judge(j, counters)
+        flagged = jd.round1(plan, res)
+        judges.append(jd)
+        second.append(j.round2(flagged) if flagged else ([], []))
+    if any(recs for _, recs in second):
+        results2 = _run_engines([(j.inst.rv, recs) for j, (_, recs) in zip(live, second)])
+        for jd, (plan, _), res in zip(judges, second, results2):
+            if plan:
+                jd.round2(plan, res)
+    it = iter(judges)
+    return [p if isinstance(p, Discard) else next(it).failures_list() for p in prepared]
+
+
+class _Judge:
+    def __init__(self, job, counters):
+        self.job = job
+        self.inst = job.inst
+        self.counters = counters
+        self.failures = {}
+        self.base_res = {}
+        self.base_out = {}
+        self.outs = []
+
+    def failures_list(self):
+        return list(self.failures.values())
+
+    def _count(self, k, n=1):
+        self.counters[k] = self.counters.get(k, 0) + n
+
+    def _input(self, s, perts, f, i):
+        for pf, pi, nv in perts or ():
+            if pf == f and pi == i:
+                return nv
+        return self.job.states[s][f][i]
+
+    def _write_check(self, s, perts, res):
+        """Every changed ppci register must be in the alias closure of the declared writes
+        (res.changed: which full registers differ from this run's input; only full registers that are
+        not entirely inside the closure need a closer look)."""
+        inst = self.inst
+        ch = res.changed & inst.suspect_mask()
+        if not ch:
+            return
+        tgt = inst.target
+        byfull = regs_by_full(tgt)
+        for bit in range(32):
+            if not (ch >> bit) & 1:
                 continue
-            nok += 1
-            base_out[s] = [res.reg(f, i) for (f, i), _ in outs]
-        else:
-            b = base_res[s]
-            if b.status != 0:
+            f, i = ("g", bit) if (bit < 16 or inst.rv) else ("x", bit - 16)
+            vin = self._input(s, perts, f, i)
+            vout = res.reg(f, i)
+            d = (vin ^ vout) & (M64 if f == "x" else x86step.M128)
+            bad = [r for r, lo, w in byfull[(f, i)] if (d >> lo) & ((1 << w) - 1) and id(r) not in inst.closure]
+            if not bad:
                 continue
-            if res.status != 0:
-                counters["perturbed run faulted"] = counters.get("perturbed run faulted", 0) + 1
-                continue
-        # --- writes: every changed ppci register must be in the alias closure of the declared writes
-        # (res.changed: which full registers differ from this run's input; only full registers that
-        # are not entirely inside the closure need a closer look)
-        ch = res.changed & suspect
-        if ch:
-            for bit in range(32):
-                if not (ch >> bit) & 1:
+            r = bad[0]  # widest first
+            k = ("WRITE", full_name(f, i, tgt), None)
+            if k not in self.failures:
+                self.failures[k] = Failure(
+                    "WRITE",
+                    inst,
+                    full_name(f, i, tgt),
+                    None,
+                    "changed %s (%#x -> %#x) which is outside the alias closure of the declared writes %s + clobbers %s; declared reads %s [seed %d state %d%s]"
+                    % (r.name, vin, vout, _fmt_decl(inst.writes), _fmt_decl(inst.clobbers), _fmt_decl(inst.reads), self.job.seed, s, "" if not perts else " with perturbed inputs"),
+                )
+
+    def _differs(self, s, res):
+        """None, or (output name, description) when the run disagrees with the base run of the state."""
+        b = self.base_res[s]
+        for ((f, i), m), x in zip(self.outs, self.base_out[s]):
+            y = res.reg(f, i)
+            if (x ^ y) & m:
+                return (full_name(f, i, self.inst.target), "%#x vs %#x (declared output bits %#x)" % (x & m, y & m, m))
+        if b.arena_hash != res.arena_hash:
+            return ("arena", "arena contents differ (bytes %d..%d vs %d..%d changed)" % (b.first, b.last, res.first, res.last))
+        return None
+
+    def round1(self, plan, results):
+        inst, job = self.inst, self.job
+        # bits of the adjacent defs that this instruction is seen to write (union over the base runs)
+        outmask = dict(inst.outmask)
+        if inst.adjmask:
+            written = {}
+            for (s, perts), res in zip(plan, results):
+                if perts is None and res.status == 0:
+                    for f, i in inst.adjmask:
+                        written[(f, i)] = written.get((f, i), 0) | (job.states[s][f][i] ^ res.reg(f, i))
+            for k, m in inst.adjmask.items():
+                if m & written.get(k, 0):
+                    outmask[k] = outmask.get(k, 0) | (m & written[k])
+        self.outs = list(outmask.items())
+        flagged = []
+        nok = 0
+        for (s, perts), res in zip(plan, results):
+            if perts is None:
+                self.base_res[s] = res
+                if res.status != 0:
+                    sn = res.status if isinstance(res.status, str) else x86step.status_name(res.status)
+                    self._count("untestable:" + sn)
                     continue
-                f, i = ("g", bit) if (bit < 16 or inst.rv) else ("x", bit - 16)
-                vin = pert[2] if pert is not None and pert[0] == f and pert[1] == i else st[f][i]
-                vout = res.reg(f, i)
-                d = (vin ^ vout) & (M64 if f == "x" else x86step.M128)
-                bad = [r for r, lo, w in byfull[(f, i)] if (d >> lo) & ((1 << w) - 1) and id(r) not in inst.closure]
-                if not bad:
-                    continue
-                r = bad[0]  # widest first
-                k = ("WRITE", full_name(f, i, tgt), None)
-                if k not in failures:
-                    failures[k] = Failure(
-                        "WRITE",
-                        inst,
-                        full_name(f, i, tgt),
-                        None,
-                        "changed %s (%#x -> %#x) which is outside the alias closure of the declared writes %s + clobbers %s; declared reads %s [seed %d state %d%s]"
-                        % (r.name, vin, vout, _fmt_decl(inst.writes), _fmt_decl(inst.clobbers), _fmt_decl(inst.reads), seed, s, "" if pert is None else " perturbed %s" % full_name(pert[0], pert[1], tgt)),
-                    )
-        # --- reads: outputs must not depend on the perturbed (undeclared) register
-        if pert is not None:
-            b = base_res[s]
-            pname = full_name(pert[0], pert[1], tgt)
-            bad = None
-            for ((f, i), m), x in zip(outs, base_out[s]):
-                y = res.reg(f, i)
-                if (x ^ y) & m:
-                    bad = (full_name(f, i, tgt), "%#x vs %#x (declared output bits %#x)" % (x & m, y & m, m))
-                    break
-            if bad is None and b.arena_hash != res.arena_hash:
-                bad = ("arena", "arena contents differ (bytes %d..%d vs %d..%d changed)" % (b.first, b.last, res.first, res.last))
-            if bad is not None:
-                k = ("READ", pname, bad[0])
-                if k not in failures:
-                    old = (st["g"] if pert[0] == "g" else st["x"])[pert[1]]
-                    failures[k] = Failure(
-                        "READ",
-                        inst,
-                        pname,
-                        bad[0],
-                        "output %s depends on %s, which is not among the declared reads %s: %s=%#x gives %s [seed %d state %d]"
-                        % (bad[0], pname, _fmt_decl(inst.reads), pname, old, bad[1].replace(" vs ", ", %s=%#x gives " % (pname, pert[2]), 1), seed, s),
-                    )
-    counters["states executed"] = counters.get("states executed", 0) + nok
-    counters["states"] = counters.get("states", 0) + nstates
-    counters["runs"] = counters.get("runs", 0) + len(recs)
-    return list(failures.values())
+                nok += 1
+                self.base_out[s] = [res.reg(f, i) for (f, i), _ in self.outs]
+                self._write_check(s, None, res)
+                continue
+            if self.base_res[s].status != 0:
+                continue
+            if res.status != 0:
+                flagged.append(s)  # the registers are tried one at a time
+                continue
+            self._write_check(s, perts, res)
+            if self._differs(s, res) is not None:
+                flagged.append(s)
+        self._count("states executed", nok)
+        self._count("states", job.nstates)
+        self._count("runs", len(results))
+        return flagged
+
+    def round2(self, plan, results):
+        inst, job = self.inst, self.job
+        self._count("runs", len(results))
+        self._count("states with one-register-at-a-time runs", len({s for s, _ in plan}))
+        for (s, perts), res in zip(plan, results):
+            if res.status != 0:
+                self._count("perturbed run faulted")
+                continue
+            self._write_check(s, perts, res)
+            bad = self._differs(s, res)
+            if bad is None:
+                continue
+            f, i, nv = perts[0]
+            pname = full_name(f, i, inst.target)
+            k = ("READ", pname, bad[0])
+            if k not in self.failures:
+                old = job.states[s][f][i]
+                self.failures[k] = Failure(
+                    "READ",
+                    inst,
+                    pname,
+                    bad[0],
+                    "output %s depends on %s, which is not among the declared reads %s: %s=%#x gives %s [seed %d state %d]"
+                    % (bad[0], pname, _fmt_decl(inst.reads), pname, old, bad[1].replace(" vs ", ", %s=%#x gives " % (pname, nv), 1), job.seed, s),
+                )
 
 
 # ---------------------------------------------------------------------------
@@ -1186,6 +1265,10 @@ def select_unit(units, sel):
 
 def run_case(case, stats=None):
     """-> (unknown failures, known [(id, failure)], info)"""
+    if is_rv(case["src"].get("target", TARGET)):
+        ok, note = rvstep.validated()
+        if not ok:
+            raise Discard("RISC-V emulator not validated: " + note)
     units = units_of(case["src"], stats)
     n = int(case.get("nstates", NSTATES))
     seed = int(case["seed"])
@@ -1303,8 +1386,11 @@ def ir_idioms():
 
 def idiom_sources():
     srcs = [{"kind": "c", "text": t, "opt": lvl} for t in IDIOMS for lvl in (0, 2)]
-    # IR idioms are tiny: a few per source description would need multi-function modules; keep one each
-    srcs += [{"kind": "ir", "desc": d, "opt": 0} for d in ir_idioms()]
+    # the one-instruction IR functions, several per module: one compile and one reference-decoder
+    # run per source
+    fns = [d["functions"][0] for d in ir_idioms()]
+    for a in range(0, len(fns), 8):
+        srcs.append({"kind": "ir", "desc": {"ptr_bits": 64, "globals": [], "externals": [], "functions": fns[a : a + 8]}, "opt": 0})
     return srcs
 
 
@@ -1317,7 +1403,7 @@ def rv_idiom_sources():
     srcs = []
     for t in RV_TARGETS:
         for k in RV_IDIOMS:
-            for lvl in (0, 2):
+            for lvl in (0, 2) if t == "riscv" else (2,):
                 srcs.append({"kind": "c", "text": IDIOMS[k], "opt": lvl, "target": t})
     # the one-instruction IR functions, several per module (one reference-decoder run per source);
     # not the ones the RISC-V selector has no rule for (16-bit division and unary operations)
@@ -1613,18 +1699,19 @@ def run(ctx):
 
     nw = 16
     nstates = NSTATES_QUICK if ctx.quick else NSTATES
-    nprog = ctx.scale(2, 80)
-    nvar = ctx.scale(60, 5000)
-    sources = idiom_sources()
+    nprog = ctx.scale(1, 80)
+    nvar = ctx.scale(48, 5000)
     targets = [TARGET]
     rv_ok, rv_note = rvstep.validated()
     ctx.stats.notes.append(rv_note)
     if rv_ok:
-        for t in RV_TARGETS:
-            arch(t)
-        sources += rv_idiom_sources()
+        # the RISC-V sources go to the last NRV shards only: each of them builds the two RISC-V
+        # architecture objects (2-3 s each) itself, the other shards and the parent never do
+        NRV = 4
+        shards = _split_sources(idiom_sources(), nw - NRV) + _split_sources(rv_idiom_sources(), NRV)
         targets += list(RV_TARGETS)
-    shards = _split_sources(sources, nw)
+    else:
+        shards = _split_sources(idiom_sources(), nw)
     # quick: RISC-V is covered through the fixed idioms and their variants only
     ptargets = (TARGET,) if ctx.quick else tuple(targets)
     ctx.pmap(_worker, [(subseed(ctx.seed, PID, w), shards[w], nprog, nvar, nstates, ptargets) for w in range(nw)])
